@@ -39,7 +39,7 @@ func VerifC16Action() {
 	} else {
 		exists := verifnd.Or(r.eid == s.eOwn, r.eid == s.eOther, r.eid == s.ePers)
 		olderOwn := verifnd.And(r.eid == s.eOwn, r.name == "act", s.hasAction, tsBefore(r.actTS.Seconds, r.actTS.Nanos, s.actSec, s.actNanos))
-		olderPers := verifnd.And(r.eid == s.ePers, r.name == "act", s.hasAction, tsBefore(r.actTS.Seconds, r.actTS.Nanos, 1, 1))
+		olderPers := verifnd.And(verifnd.Or(r.eid == s.ePers, r.eid == s.eOther), r.name == "act", s.hasAction, tsBefore(r.actTS.Seconds, r.actTS.Nanos, 1, 1))
 		accept = verifnd.And(exists, r.name != "", !olderOwn, !olderPers)
 	}
 	verifnd.Assert(verifnd.Iff(accept, nOK == 1), "C16.action.accepted_iff_not_older", memberName(ai))
